@@ -1,4 +1,36 @@
 pub mod c01;
 pub mod c02;
 pub mod c08;
+pub mod c09;
 pub mod c10;
+
+use crate::Ctx;
+use serde_json::Value;
+
+pub fn run(id: &str, ctx: &Ctx) -> i32 {
+    match id {
+        "C01" => c01::run(ctx),
+        "C02" => c02::run(ctx),
+        "C08" => c08::run(ctx),
+        "C09" => c09::run(ctx),
+        "C10" => c10::run(ctx),
+        _ => {
+            eprintln!("unknown property {}", id);
+            2
+        }
+    }
+}
+
+pub fn replay(id: &str, ctx: &Ctx, v: &Value) -> i32 {
+    match id {
+        "C01" => c01::replay(ctx, v),
+        "C02" => c02::replay(ctx, v),
+        "C08" => c08::replay(ctx, v),
+        "C09" => c09::replay(ctx, v),
+        "C10" => c10::replay(ctx, v),
+        _ => {
+            eprintln!("unknown property {}", id);
+            2
+        }
+    }
+}
